@@ -1,5 +1,287 @@
+/-
+Model of the TOY assembler: `isa/parser.py` (`_sanitize`, `_tokenize`, `_segment`, `_add_label_mapping`)
+and `isa/toy/toy_parser.py`, and of `ToySimulation.load_program`.
+The pyparsing grammar is transcribed with the scanners of `Model.PP`.
+Import-free: compiled into the driver.
+-/
 import ArchSim.Model.Toy
+import ArchSim.Model.PP
+
 namespace ArchSim.ToyAsm
-open ArchSim
-def loadProgram (t : Toy.TSim) (_text : String) : Toy.TSim × String := (t, "unimplemented")
+open ArchSim ArchSim.PP
+
+inductive TStmt where
+  | directive (d : String)
+  | varDecl (name : String) (vals : List String)
+  | instr (lbl : Option String) (mn : String) (addr : Option String) (ref : Option String)
+  | label (name : String)
+deriving Repr, DecidableEq, Inhabited
+
+def addrMnemonics : List String := ["STO", "LDA", "BRZ", "ADD", "SUB", "OR", "AND", "XOR"]
+def noAddrMnemonics : List String := ["NOT", "INC", "DEC", "ZRO", "NOP"]
+
+def isLabelInit (c : Char) : Bool := isAlpha c || c = '_'
+def isLabelBody (c : Char) : Bool := isAlnum c || c = '_'
+
+/-- `_pattern_label` -/
+def pLabel : Inp → R String := word isLabelInit isLabelBody
+
+/-- `_pattern_value = Combine("0x" + Word(hexnums)) | Word(nums)` (the decimal form is validated by
+    a parse action: more than 4300 digits is a mismatch). -/
+def pValue (i : Inp) : R String :=
+  let i := skipWs i
+  match (litAdj "0x" i).bind (fun _ r => wordAdj isHexNum isHexNum r) with
+  | .ok h rest => .ok ("0x" ++ h) rest
+  | .abort => .abort
+  | .fail =>
+    match wordAdj isNum isNum i with
+    | .ok d rest => if (pyIntDec d).isSome then .ok d rest else .fail
+    | r => r
+
+def pColon : Inp → R Unit := lit ":"
+
+def pLabelDecl (i : Inp) : R String :=
+  (pLabel i).bind fun l r => (pColon r).map fun _ => l
+
+def pDirective (i : Inp) : R TStmt :=
+  (lit "." i).bind fun _ r => (oneOf ["text", "data"] r).map fun d => .directive d
+
+/-- `delimitedList(value, ",")` after the first value. -/
+def pMoreValues : Nat → Inp → List String → List String × Inp
+  | 0, i, acc => (acc.reverse, i)
+  | fuel + 1, i, acc =>
+    match (lit "," i).bind (fun _ r => pValue r) with
+    | .ok v rest => pMoreValues fuel rest (v :: acc)
+    | _ => (acc.reverse, i)
+
+def pVarDecl (i : Inp) : R TStmt :=
+  (pLabel i).bind fun name r1 =>
+  (pColon r1).bind fun _ r2 =>
+  (lit "." r2).bind fun _ r3 =>
+  (oneOf ["word"] r3).bind fun _ r4 =>
+  (pValue r4).bind fun v r5 =>
+    let (vs, rest) := pMoreValues r5.length r5 [v]
+    .ok (.varDecl name vs) rest
+
+def pAddrInstr (lbl : Option String) (i : Inp) : R TStmt :=
+  (oneOfCaseless addrMnemonics i).bind fun mn r =>
+    orLongest [fun j => (pValue j).map (fun v => TStmt.instr lbl mn (some v) none),
+               fun j => (pLabel j).map (fun l => TStmt.instr lbl mn none (some l))] r
+
+def pNoAddrInstr (lbl : Option String) (i : Inp) : R TStmt :=
+  (oneOfCaseless noAddrMnemonics i).map fun mn => .instr lbl mn none none
+
+def pInstruction (i : Inp) : R TStmt :=
+  (opt pLabelDecl i).bind fun lbl r => orLongest [pAddrInstr lbl, pNoAddrInstr lbl] r
+
+/-- `_pattern_line.parseString(line)`; `none` = the line cannot be tokenized. -/
+def parseLine (line : List Char) : Option TStmt :=
+  match orLongest [pDirective, pVarDecl, pInstruction,
+                   fun i => (pLabelDecl i).map TStmt.label] line with
+  | .ok s rest => if atEnd rest then some s else none
+  | _ => none
+
+/-! ### passes -/
+
+inductive AsmErr where
+  | parser (kind : String) (lineNo : Nat) (line : String)
+  | memSize (n : Nat)
+  | memAddr (a : Int)
+deriving Repr, DecidableEq
+
+abbrev Entry := Nat × String × TStmt      -- (line number, sanitized line, tokens)
+
+/-- `_sanitize`: numbered, non-empty, non-comment lines with trailing comments removed, stripped. -/
+def sanitize (text : String) : List (Nat × List Char) :=
+  let ls := splitLines text.toList
+  let numbered := (List.range ls.length).zip ls |>.map fun (k, l) => (k + 1, l)
+  let kept := numbered.filter fun (_, l) =>
+    let s := pyStrip l
+    !s.isEmpty && s.head? != some '#'
+  kept.map fun (k, l) => (k, pyStrip (l.takeWhile (· != '#')))
+
+def tokenize : List (Nat × List Char) → Except AsmErr (List Entry)
+  | [] => .ok []
+  | (k, l) :: rest =>
+    match parseLine l with
+    | none => .error (.parser "ParserSyntaxException" k (String.ofList l))
+    | some s =>
+      match tokenize rest with
+      | .error e => .error e
+      | .ok es => .ok ((k, String.ofList l, s) :: es)
+
+def isDir (d : String) (e : Entry) : Bool := e.2.2 == TStmt.directive d
+
+/-- index of the entry with line number `k` in a list -/
+def idxOfLine (k : Nat) (l : List Entry) : Nat := l.findIdx (fun e => e.1 == k)
+
+structure Seg where
+  data : List Entry
+  text : List Entry
+  dataExists : Bool
+  textExists : Bool
+
+/-- `_segment` -/
+def segment (toks : List Entry) : Except AsmErr (List Entry × List Entry) :=
+  match toks with
+  | [] => .ok ([], [])
+  | first :: rest =>
+    let s0 : Seg :=
+      if isDir "data" first then { data := rest, text := [], dataExists := true, textExists := false }
+      else if isDir "text" first then { data := [], text := rest, dataExists := false, textExists := true }
+      else { data := [], text := toks, dataExists := false, textExists := true }
+    let step (acc : Except AsmErr Seg) (e : Entry) : Except AsmErr Seg :=
+      match acc with
+      | .error x => .error x
+      | .ok s =>
+        if isDir "data" e then
+          if !s.dataExists then
+            let idx := idxOfLine e.1 s.text
+            .ok { s with dataExists := true, data := s.text.drop (idx + 1), text := s.text.take idx }
+          else .error (.parser "ParserDirectiveException" e.1 e.2.1)
+        else if isDir "text" e then
+          if !s.textExists then
+            let idx := idxOfLine e.1 s.data
+            .ok { s with textExists := true, text := s.data.drop (idx + 1), data := s.data.take idx }
+          else .error (.parser "ParserDirectiveException" e.1 e.2.1)
+        else .ok s
+    match rest.foldl step (.ok s0) with
+    | .error x => .error x
+    | .ok s => .ok (s.data, s.text)
+
+abbrev Labels := List (String × Int)
+
+def lookup (ls : Labels) (n : String) : Option Int := (ls.find? (fun p => p.1 == n)).map (·.2)
+
+/-- `_add_label_mapping` -/
+def addLabel (ls : Labels) (n : String) (v : Int) (k : Nat) (line : String) : Except AsmErr Labels :=
+  if (lookup ls n).isSome then .error (.parser "DuplicateLabelException" k line) else .ok (ls ++ [(n, v)])
+
+/-- `_process_labels` (runs over *all* tokenized lines, data segment included). -/
+def processLabels : List Entry → Labels → Nat → Except AsmErr Labels
+  | [], ls, _ => .ok ls
+  | (k, line, s) :: rest, ls, pc =>
+    match s with
+    | .label n =>
+      match addLabel ls n pc k line with
+      | .error e => .error e
+      | .ok ls' => processLabels rest ls' pc
+    | .instr (some l) _ _ _ =>
+      match addLabel ls l pc k line with
+      | .error e => .error e
+      | .ok ls' => processLabels rest ls' (pc + 1)
+    | .instr none _ _ _ => processLabels rest ls (pc + 1)
+    | _ => processLabels rest ls pc
+
+/-- `_value_to_int` -/
+def valueToInt (v : String) : Nat :=
+  match v.toList with
+  | '0' :: 'x' :: ds => (natOfDigits 16 ds).getD 0
+  | ds => (natOfDigits 10 ds).getD 0
+
+structure DataOut where
+  mem    : Mem.Mem
+  labels : Labels
+  last   : Int             -- `last_address_not_used_by_data`
+  err    : Option AsmErr
+
+def writeVals (m : Mem.Mem) (a : Int) : List String → Mem.Mem
+  | [] => m
+  | v :: vs => writeVals (Mem.writeN m a 1 (valueToInt v % 65536)).1 (a + 1) vs
+
+/-- `_write_data` -/
+def writeData : List Entry → DataOut → DataOut
+  | [], o => o
+  | (k, line, s) :: rest, o =>
+    match s with
+    | .varDecl name vals =>
+      let last := o.last - vals.length
+      let wa := last + 1
+      if wa < 0 then { o with last := last, err := some (.memSize 4096) }
+      else
+        match addLabel o.labels name wa k line with
+        | .error e => { o with last := last, err := some e }
+        | .ok ls => writeData rest { o with mem := writeVals o.mem wa vals, labels := ls, last := last }
+    | _ => { o with err := some (.parser "ParserDataSyntaxException" k line) }
+
+def opcodeOf (mn : String) : Nat :=
+  match mn with
+  | "STO" => 0 | "LDA" => 1 | "BRZ" => 2 | "ADD" => 3 | "SUB" => 4 | "OR" => 5 | "AND" => 6 | "XOR" => 7
+  | "NOT" => 8 | "INC" => 9 | "DEC" => 10 | "ZRO" => 11 | _ => 12
+
+/-- the instruction objects `_load_instructions` builds, or the first error -/
+def buildInstrs : List Entry → Labels → Except AsmErr (List Toy.TInstr)
+  | [], _ => .ok []
+  | (k, line, s) :: rest, ls =>
+    match s with
+    | .varDecl _ _ => .error (.parser "ParserDataSyntaxException" k line)
+    | .instr _ mn addr ref =>
+      let op := opcodeOf mn
+      let a : Except AsmErr Int :=
+        if op ≤ 7 then
+          match addr, ref with
+          | some v, _ => .ok (valueToInt v)
+          | none, some l =>
+            match lookup ls l with
+            | some x => .ok x
+            | none => .error (.parser "ParserLabelException" k line)
+          | none, none => .ok 0
+        else .ok 0
+      match a with
+      | .error e => .error e
+      | .ok x =>
+        match buildInstrs rest ls with
+        | .error e => .error e
+        | .ok is => .ok ({ opcode := op, addr := (x % 4096).toNat } :: is)
+    | _ => buildInstrs rest ls
+
+def writeInstrs (m : Mem.Mem) (k : Nat) : List Toy.TInstr → Mem.Mem
+  | [] => m
+  | i :: is => writeInstrs (Mem.writeN m (k : Int) 1 (Toy.encode i % 65536)).1 (k + 1) is
+
+/-- `ToySimulation.load_program(text)`: a fresh architectural state, then the parser passes; on an
+    error the state keeps what the passes did so far. -/
+def load (t : Toy.TSim) (text : String) : Toy.TSim × Option AsmErr :=
+  let fresh : Toy.TSt := {}
+  let t0 := { t with s := fresh }
+  match tokenize (sanitize text) with
+  | .error e => (t0, some e)
+  | .ok toks =>
+    match segment toks with
+    | .error e => (t0, some e)
+    | .ok (data, text') =>
+      match processLabels toks [] 0 with
+      | .error e => (t0, some e)
+      | .ok ls =>
+        let d := writeData data { mem := fresh.mem, labels := ls, last := 4095, err := none }
+        let t1 := { t0 with s := { fresh with mem := d.mem } }
+        match d.err with
+        | some e => (t1, some e)
+        | none =>
+          match buildInstrs text' d.labels with
+          | .error e => (t1, some e)
+          | .ok is =>
+            if (is.length : Int) - 1 > d.last then (t1, some (.memSize 4096))
+            else
+              let m := writeInstrs d.mem 0 is
+              let s : Toy.TSt := { fresh with mem := m, maxPc := some ((is.length : Int) - 1) }
+              let s' := match is with
+                | [] => s
+                | i :: _ => { s with loaded := some i, vis := { pcOld := some 0, ramOut := some (Toy.encode i % 65536) } }
+              ({ t0 with s := s' }, none)
+
+def hexNib (n : Nat) : Char := if n < 10 then Char.ofNat (48 + n) else Char.ofNat (87 + n)
+def hexStr (s : String) : String :=
+  if s.isEmpty then "." else s.toUTF8.foldl (fun acc b => acc ++ String.ofList [hexNib (b.toNat / 16), hexNib (b.toNat % 16)]) ""
+
+def errStr : AsmErr → String
+  | .parser kind k line => s!"PE {kind} {k} {hexStr line}"
+  | .memSize n => s!"ME size {n}"
+  | .memAddr a => s!"ME addr {a}"
+
+def loadProgram (t : Toy.TSim) (text : String) : Toy.TSim × String :=
+  match load t text with
+  | (t', none) => (t', "ok")
+  | (t', some e) => (t', errStr e)
+
 end ArchSim.ToyAsm
